@@ -222,8 +222,9 @@ func Atlas() []*spec.Program {
 			F("ByConfigList", "int64", rep()),
 			F("Plain", "string"))
 		cfg := baseConfig("Customs")
-		cfg.Suffixes = map[string]string{"CustomBool": "BoolSpecial"}
-		cfg.CustomTypes = map[string]string{"Customs.ByConfig": "StringCustom", "Customs.ByConfigList": "some/pkg.IntList"}
+		// near-miss keys: only an exact key is a suffix entry / a custom type entry
+		cfg.Suffixes = map[string]string{"CustomBool": "BoolSpecial", "IntList": "DecoyA", "pkg.IntList": "DecoyB", "custombool": "DecoyCase", "Custom": "DecoyPrefix"}
+		cfg.CustomTypes = map[string]string{"Customs.ByConfig": "StringCustom", "Customs.ByConfigList": "some/pkg.IntList", "ByConfig": "DecoyType", "Customs.Plain.": "DecoyType", "customs.plain": "DecoyType"}
 		out = append(out, prog("a_custom", append([]string{"C17"}, convProps...), cfg, nil, root))
 	}
 	// --- json tags and name overrides
@@ -244,7 +245,8 @@ func Atlas() []*spec.Program {
 			F("lower_snake", "string"),
 		)
 		cfg := baseConfig("Names")
-		cfg.NameOverrides = map[string]string{"Names.ByPath": "by_path_override", "Names.ByKey": "by_key_override", "Names.Sub.LeafName": "only_in_sub", "Leaf.Other": "everywhere"}
+		cfg.NameOverrides = map[string]string{"Names.ByPath": "by_path_override", "Names.ByKey": "by_key_override", "Names.Sub.LeafName": "only_in_sub", "Leaf.Other": "everywhere",
+			"Plain": "decoy_bare", "Sub.LeafName": "decoy_rootless", "names.tagged": "decoy_case", "Names.Subs.LeafNam": "decoy_prefix"}
 		out = append(out, prog("a_names", convProps, cfg, nil, leaf, root))
 	}
 	// --- flags, validators, plan modifiers, injected fields, comments
@@ -260,11 +262,14 @@ func Atlas() []*spec.Program {
 		)
 		root.Fields[11].Comment = ""
 		cfg := baseConfig("Flags")
-		cfg.RequiredFields = []string{"Flags.Req", "Flags.All", "Leaf.A"}
-		cfg.ComputedFields = []string{"Flags.Comp", "Flags.All", "Flags.CompPm", "Flags.L1.B", "Flags.Ls"}
-		cfg.SensitiveFields = []string{"Flags.Sens", "Flags.All", "Leaf.C"}
+		// besides the real keys, near-miss keys which must not match anything: bare field names, paths
+		// without the root, other letter case, prefixes
+		cfg.RequiredFields = []string{"Flags.Req", "Flags.All", "Leaf.A", "Val", "L1.B", "flags.comp", "Flags.Re"}
+		cfg.ComputedFields = []string{"Flags.Comp", "Flags.All", "Flags.CompPm", "Flags.L1.B", "Flags.Ls", "Sens", "L2.A", "Flags.L1"+".", "Leaf"}
+		cfg.SensitiveFields = []string{"Flags.Sens", "Flags.All", "Leaf.C", "Req", "Flags.Ls.", "FLAGS.VAL"}
 		cfg.UseStateForUnknownByDefault = true
-		cfg.Validators = map[string][]string{"Flags.Val": {spec.SupportPkg + `.V("v1")`, spec.SupportPkg + `.V("v2")`}, "Leaf.B": {spec.SupportPkg + `.V("leafb")`}}
+		cfg.Validators = map[string][]string{"Flags.Val": {spec.SupportPkg + `.V("v1")`, spec.SupportPkg + `.V("v2")`}, "Leaf.B": {spec.SupportPkg + `.V("leafb")`},
+			"Val": {spec.SupportPkg + `.V("decoy1")`}, "L1.A": {spec.SupportPkg + `.V("decoy2")`}, "flags.pm": {spec.SupportPkg + `.V("decoy3")`}}
 		cfg.PlanModifiers = map[string][]string{"Flags.Pm": {spec.SupportPkg + `.PM("p1")`}, "Flags.CompPm": {spec.SupportPkg + `.PM("explicit")`}, "Flags.L2.A": {"github.com/hashicorp/terraform-plugin-framework/tfsdk.UseStateForUnknown()", spec.SupportPkg + `.PM("p2")`}}
 		cfg.InjectedFields = map[string][]spec.Injected{
 			"Flags":    {{Name: "id", Type: "github.com/hashicorp/terraform-plugin-framework/types.StringType", TyAbs: "str", Computed: true, PlanModifiers: []string{"github.com/hashicorp/terraform-plugin-framework/tfsdk.UseStateForUnknown()"}}, {Name: "extra", Type: "github.com/hashicorp/terraform-plugin-framework/types.Int64Type", TyAbs: "i64", Optional: true, Validators: []string{spec.SupportPkg + `.V("inj")`}}},
